@@ -13,7 +13,7 @@
    (id, site) pairs whose mask entry is False, in site order; [wf_input] = a non-empty
    layout of ploidies >= 1 and, at the unmasked sites, one genotype per output column
    and at least one allele (what __init__ and ts.variants guarantee). *)
-From Coq Require Import List ZArith Bool.
+From Coq Require Import List ZArith Bool Sorting.Sorted.
 From TskVerif Require Import Base.Common Gen.Generated C16.Model C16.Spec C16.TemplateProofs C16.BodyProofs
   C16.MappingProofs C16.Decode C16.WrapperProofs C16.EndToEndProofs.
 Import ListNotations.
@@ -216,3 +216,20 @@ Theorem write_vcf_forwards_every_keyword :
   /\ c16_write_vcf_params = write_vcf_documented_params
   /\ c16_as_vcf_forwards_all = true.
 Proof. exact WrapperProofs.write_vcf_forwards_every_keyword. Qed.
+
+(* ---- proof-only round ---- *)
+
+(* The ##contig length as a function of the transformed sequence length and the transformed
+   positions: it is at least 1, at least the transformed sequence length, and — whenever the
+   transformed positions are non-decreasing, as they are for numpy.round, the legacy transform and
+   every monotone callable on increasing site positions — no written POS exceeds it. *)
+Theorem contig_length_covers_positions : forall tl pos, StronglySorted Z.le pos ->
+  Forall (fun p => p <= contig_length tl pos) pos
+  /\ 1 <= contig_length tl pos /\ tl <= contig_length tl pos.
+Proof. exact contig_covers_positions. Qed.
+
+(* position_transform="legacy": every POS lies in [1, contig length], for any site positions. *)
+Theorem legacy_positions_within_contig : forall rounded tl,
+  let pos := legacy_transform 0 rounded in
+  Forall (fun p => 1 <= p <= contig_length tl pos) pos.
+Proof. exact legacy_contig_covers. Qed.
